@@ -2315,13 +2315,17 @@ def preprocess_file(
             # spare the expensive regex-substitution in case we do not need it at all
             if def_tmp not in line:
                 continue
-            def_regex = def_regexes.get(def_tmp)
-            if def_regex is None:
+            # The cached pattern belongs to one definition: the macro may have
+            # been redefined (#undef, #define) since it was last used
+            cached = def_regexes.get(def_tmp)
+            if cached is None or cached[0] != value:
                 if isinstance(value, tuple):
                     def_regex = expand_func_macro(def_tmp, value)
                 else:
                     def_regex = re.compile(rf"\b{def_tmp}\b")
-                def_regexes[def_tmp] = def_regex
+                def_regexes[def_tmp] = (value, def_regex)
+            else:
+                def_regex = cached[1]
 
             if isinstance(def_regex, tuple):
                 def_regex, value = def_regex
